@@ -333,3 +333,58 @@ def ob_reentrant(start: int, size: int, pos: int, kn: int, topn: int) -> bool:
 OBLIGATIONS.append(Ob('reentrant_same_tag', ob_reentrant, ['1 <= start <= 3', '1 <= size <= 3', '0 <= pos < size', '0 <= kn <= 4', '0 <= topn <= 2'], timeout=tier(280, 900),
                       data='start 1..3, size 1..3, position of the recursing element inside the window, child length (0 = unbounded, 1..4), outer iterator unbounded / ending with the window / one element after it',
                       selectors='template that calls itself from inside its own batched dtml-in (two iterators, one compiled tag)'))
+
+
+# ---------------------------------------------------------------- wave 4
+T_NESTED_SAME = cooked('<dtml-in it mapping size=sz><dtml-call "rec(0, v)"><dtml-in it mapping size=sz><dtml-call "rec(1, v)"></dtml-in></dtml-in>')
+
+
+def ob_nested_same_name(size: int, n: int) -> bool:
+    """a nested dtml-in over the SAME name (a generator): both loops walk the one adapted sequence - the inner loop shows the same first
+    batch for every outer element, elements are pulled once, and the total stays within window + look-ahead"""
+    it = Counting(None if n == 0 else n)
+    rows = []
+    try:
+        T_NESTED_SAME(it=it, sz=size, rec=lambda t, v: rows.append((t, v)))
+    except PullCap:
+        return False
+    shown = size if n == 0 else min(size, n)
+    exp = []
+    for v in range(shown):
+        exp.append((0, v))
+        exp += [(1, w) for w in range(shown)]
+    return rows == exp and in_order(it.pulled) and len(it.pulled) <= size + size
+
+
+OBLIGATIONS.append(Ob('nested_same_name', ob_nested_same_name, ['1 <= size <= 3', '0 <= n <= 5'], timeout=tier(250, 900), data='size 1..3, generator length (0 = unbounded, 1..5)',
+                      selectors='batched dtml-in nested in a batched dtml-in over the same generator, given by name'))
+
+
+class SizedLazy:
+    """lazily produced collection that knows its size but is not subscriptable (a result set with a cheap row count and a row-fetching
+    __iter__): dtml-in must not fetch it completely for one batch"""
+
+    def __init__(self, n):
+        self.n = n
+        self.pulled = []
+
+    def __len__(self):
+        return self.n
+
+    def __iter__(self):
+        for i in range(self.n):
+            self.pulled.append(i)
+            yield {'v': i}
+
+
+def ob_sized_lazy(n: int, start: int, size: int, orphan: int, overlap: int) -> bool:
+    seq = SizedLazy(n)
+    shown = []
+    T_LAZY(it=seq, st=start, sz=size, orp=orphan, ov=overlap, rec=shown.append)
+    w = C11.ref_window(start, 0, size, orphan, n)
+    if shown != list(range(w[0] - 1, w[1])):
+        return False
+    return in_order(seq.pulled) and len(seq.pulled) <= w[1] + size + orphan
+
+
+OBLIGATIONS.append(Ob('sized_lazy_collection', ob_sized_lazy, PRE, timeout=tier(280, 1200), data='as finite_start', selectors='collection with __len__ and a lazy __iter__ but no __getitem__'))
